@@ -19,6 +19,9 @@ type MethodCase struct {
 	APISecurity *Security
 	// Own forces the case into a service (and design) of its own
 	Own bool
+	// Group: consecutive cases with the same non-empty Group share one design, each in a service
+	// of its own (so that method names may repeat across the services of a design)
+	Group string
 	// SvcPath/SvcPaths: HTTP base path(s) of the service (only with Own)
 	SvcPath  string
 	SvcPaths []string
@@ -292,9 +295,13 @@ func Pack(cases []MethodCase, perService, perDesign int, family string) []*Spec 
 	var cur *Spec
 	var svc *Service
 	prevOwn := false
+	prevGroup := ""
 	for _, mc := range cases {
-		if svc == nil || len(svc.Methods) >= perService || mc.Own || prevOwn {
-			if cur == nil || len(cur.Services) >= perDesign || mc.Own || prevOwn {
+		sameGroup := mc.Group != "" && mc.Group == prevGroup
+		newGroup := mc.Group != prevGroup
+		prevGroup = mc.Group
+		if svc == nil || len(svc.Methods) >= perService || mc.Own || prevOwn || mc.Group != "" || newGroup {
+			if !sameGroup && (cur == nil || len(cur.Services) >= perDesign || mc.Own || prevOwn || newGroup) {
 				cur = &Spec{Family: family}
 				out = append(out, cur)
 			}
@@ -430,6 +437,10 @@ func validMenu() []validEntry {
 		{"pattern_pct2_string", P(KString), &Valid{Pattern: "^a%%b%d$"}},
 		{"pattern_bs_string", P(KString), &Valid{Pattern: `^\d+\.\d+$`}},
 		{"pattern_bt_string", P(KString), &Valid{Pattern: "^`b`$"}},
+		// half-open and open ranges: a lower and an upper bound of different kinds together
+		{"min_exmax_float64", P(KFloat64), &Valid{Min: F(0), ExMax: F(10)}},
+		{"exmin_max_int", P(KInt), &Valid{ExMin: F(0), Max: F(5)}},
+		{"exmin_exmax_int", P(KInt), &Valid{ExMin: F(0), ExMax: F(3)}},
 		// degenerate ranges: lower bound == upper bound (exactly one length / one value)
 		{"eqlen_string", P(KString), &Valid{MinLen: I(2), MaxLen: I(2)}},
 		{"eq_int", P(KInt), &Valid{Min: F(3), Max: F(3)}},
